@@ -19,9 +19,11 @@ RULE = ("port trees of depth 1..4 built from one table per level of the struct f
 TRUSTED = ["harness/h_C09.cpp: the struct family, the run-time pairing of names/metadata with macro-generated callbacks, "
            "the resolution of table addresses to objects, the walker callback, the dispatch of every reported address",
            "tools/props/ports_common.py: the Spec-side expansion of '#N'"]
-ASSUMPTIONS = ["sub-tree names: every '#N' is followed by '/', the name ends in '/'; rRecur/rRecurp/rRecurs names have one "
-               "component (their callbacks strip one); no ':' in front of a '#'; 1 <= N",
-               "'enabled by' names a toggle of the same table (not a port inside the sub-tree it disables)",
+ASSUMPTIONS = ["sub-tree names end in '/'; rRecur/rRecurp/rRecurs names have one component (their callbacks strip one); "
+               "no ':' in front of a '#'; 1 <= N",
+               "'enabled by' names a toggle of the same table, or (rRecur / rRecurp ports) a toggle inside the sub-tree "
+               "it disables ('name/toggle'); for enumerated sub-trees the latter is not generated (the source's own "
+               "TODO: the address of the enabling port keeps '#N')",
                "the buffer is large enough (walk_ports' own asserts are off in the pinned build type)",
                "dispatch of a reported address is demanded when no concrete sibling name is a prefix of another and "
                "literal characters are not digits (as in C18_lookup)"]
@@ -70,9 +72,16 @@ def gen_level_tables(rng, depth, dirty):
                 kinds = [k for k in kinds if k != 'R'] + ['M']
             if not kinds:
                 kinds = [rng.choice("RPAM")]
+            child_toggles = [q for q in tables[lv + 1] if q['kind'] in "TU"]
             for k in kinds:
                 if k in "RP":
                     segs = [lit(fresh(strict=True) + "/")]
+                    if child_toggles and rng.random() < 0.35:
+                        # 'enabled by' names a port INSIDE the sub-tree it disables: "name/toggle"
+                        tg = rng.choice(child_toggles)['name'].split(b":")[0]
+                        meta = pc.render_meta([(b"enabled by", segs[0][1] + tg), (b"doc", b"d")])
+                        t.append(pc.mk_port(segs, b"", meta, tables[lv + 1], kind=k))
+                        continue
                 elif k == 'A':
                     segs = [lit(fresh(strict=True)), ('E', rng.choice([1, 2, 2, 3, 3, 3, 11, 12] if lv == 0 else [1, 2, 3])), lit("/")]
                 else:
@@ -81,6 +90,8 @@ def gen_level_tables(rng, depth, dirty):
                         segs.append(lit(fresh(strict=(ci == 0))))
                         if rng.random() < 0.5:
                             segs.append(('E', rng.choice([1, 2, 3, 11] if lv == 1 else [1, 2, 3])))
+                            if rng.random() < 0.25:
+                                segs.append(lit(rng.choice("xyz")))      # text directly behind the index: a#2x/
                         segs.append(lit("/"))
                     segs = merge(segs)
                 t.append(pc.mk_port(segs, b"", en_meta(), tables[lv + 1], kind=k))
@@ -204,13 +215,24 @@ def spec_walk(t, rt, off, nulls, addr, ids=(), key=()):
         else:
             for a, idx in expand_idx(p['segs']):
                 sa = addr + a
+                ckey = key + (child_key(p, idx),)
                 if rt:
                     if p['kind'] == 'P' and key in nulls:
                         continue
                     e = enabled_by(p)
-                    if e is not None and (key, toggle_kind(t, e)) in off:
+                    if e is not None and b"/" in e:
+                        # the enabling port lies inside the sub-tree: the CHILD object's toggle decides;
+                        # a disabled sub-tree still reports that port (it must always be traversed)
+                        tg = e.split(b"/", 1)[1]
+                        if (ckey, toggle_kind(p['sub'], tg)) in off:
+                            for j, q in enumerate(p['sub']):
+                                if q['name'] == tg or q['name'].startswith(tg + b":"):
+                                    out.append((ids + (i, j), sa + tg))
+                                    break
+                            continue
+                    elif e is not None and (key, toggle_kind(t, e)) in off:
                         continue
-                out += spec_walk(p['sub'], rt, off, nulls, sa, ids + (i,), key + (child_key(p, idx),))
+                out += spec_walk(p['sub'], rt, off, nulls, sa, ids + (i,), ckey)
     return out
 
 def bump(dist, k, n=1):
@@ -218,7 +240,7 @@ def bump(dist, k, n=1):
 
 def gen(rng, tier, dist):
     out = []
-    ntree = 500 if tier == "quick" else 20000
+    ntree = 400 if tier == "quick" else 10000
     for _ in range(ntree):
         depth = rng.choice([1, 2, 2, 3, 3, 4])
         dirty = rng.random() < 0.15
@@ -229,6 +251,10 @@ def gen(rng, tier, dist):
         flat = [p for tb in tabs for p in tb]
         bump(dist, "trees-with-subtree-N>=11", 1 if any(p['sub'] is not None and any(k == 'E' and v >= 11 for k, v in p['segs']) for p in flat) else 0)
         bump(dist, "trees-with-leaf-two-hash", 1 if any(p['sub'] is None and pc.n_hash(p['segs']) >= 2 for p in flat) else 0)
+        # the decidable hypothesis of C09_dispatchable, evaluated on this tree (the driver
+        # prints what the extracted Coq function says; macro recursion ports only)
+        nok = 1 if pc.names_ok(t) and 'M' not in ek else 0
+        bump(dist, "names_ok-trees", nok)
         tables = all_tables(t)
         keys = sorted({k for _, _, k in tables})
         tab_of_key = {}
@@ -254,6 +280,13 @@ def gen(rng, tier, dist):
                     e = enabled_by(p)
                     if e is None:
                         continue
+                    if p['sub'] is not None and b"/" in e:
+                        tg = e.split(b"/", 1)[1]
+                        for x, idx in expand_idx(p['segs']):
+                            if (k + (child_key(p, idx),), toggle_kind(p['sub'], tg)) in off:
+                                dis.append(a + x)
+                        bump(dist, "enabled-by-inside-subtree")
+                        continue
                     if (k, toggle_kind(tb, e)) in off:
                         if p['sub'] is not None:
                             dis += [a + x for x in pc.expand(p['segs'])]
@@ -262,7 +295,7 @@ def gen(rng, tier, dist):
             buf = rng.choice([b"", b"", b"/", b"/pre/", b"/p0/q/"])
             j = lambda l: ";".join(hx(x) for x in l) if l else "-"
             offs = ";".join("%s:%d" % (hx(tab_of_key[k][0]), 0 if w == 'T' else 1) for k, w in sorted(off)) or "-"
-            out.append("walk %s %s %s %d %s %s %s %s" % (et, ek, hx(buf), rt, j(sorted(set(nulladdrs))), j(dis), j(selfoff), offs))
+            out.append("walk %s %s %s %d %s %s %s %s nok=%d" % (et, ek, hx(buf), rt, j(sorted(set(nulladdrs))), j(dis), j(selfoff), offs, nok))
             bump(dist, "runtime" if rt else "static")
             bump(dist, "pruned-subtrees", len(dis) + len(nulls))
     return out
@@ -314,7 +347,12 @@ def spec_check(case, impl):
                 % (len(got), len(want), k, got[k] if k < len(got) else None, want[k] if k < len(want) else None))
     if unhx(m["buf"]) != pre:
         return "buffer: holds %r afterwards, started with %r" % (unhx(m["buf"]), buf)
-    if tree_ok(t):
+    f = case.split(" ")
+    nok = len(f) > 9 and f[9] == "nok=1"
+    # kind X = the macro callback rRecurCb under a multi-component name: its SNIP strips one
+    # component only, so nothing below such a port is dispatchable (recorded observation;
+    # the shape C09_dispatchable excludes: sub-tree ports of more than one component)
+    if (tree_ok(t) or nok) and 'X' not in f[2]:
         d = m["d"].split(";") if m["d"] != "-" else []
         for (i, a), r in zip(got, d):
             if canon_ids(t, r) != i:
@@ -369,7 +407,13 @@ def canon(case, line):
     w = m["w"]
     if w != "-":
         w = ";".join(canon_ids(t, e.split("@")[0]) + "@" + e.split("@")[1] for e in w.split(";"))
-    return "w=%s buf=%s" % (w, m["buf"])
+    # names_ok: the model line carries the value of the extracted Coq function, the
+    # implementation line gets the generator's own evaluation from the case
+    f = case.split(" ")
+    ok = m.get("ok")
+    if ok is None:
+        ok = "1" if pc.names_ok(t) else "0"
+    return "w=%s buf=%s ok=%s" % (w, m["buf"], ok)
 
 def nontrivial(case, impl):
     f = case.split(" ")
